@@ -305,19 +305,49 @@ def obs_close(o1, o2, tol=1e-9):
 
 def is_fragile(desc, row, o):
     """the implementation itself is discontinuous / ill-conditioned at this point (a one-ulp change of the inputs moves its
-    own observables by more than 1e-9), or a degree underflows below the resolution of the exact oracle"""
+    own observables by more than 1e-9), or a degree is so small (< 1e-12) that float addition to O(1) values absorbs it
+    / it underflows below the resolution of the exact oracle"""
     if o[0] != "error":
         for b in o[1]:
             for d, _ in b:
-                if d == d and 0 < abs(d) < 1e-30:
+                if d == d and 0 < abs(d) < 1e-12:
                     return True
         for ov in o[0]:
             for _, d, _ in ov["fuzzy"]:
-                if d == d and 0 < abs(d) < 1e-30:
+                if d == d and 0 < abs(d) < 1e-12:
                     return True
+    # a degree within rounding distance of an activation threshold (but not equal to it): `>=` may go either way
+    if o[0] != "error":
+        for b, rb in zip(desc["blocks"], o[1]):
+            t = b["activation"].get("threshold")
+            if t is not None:
+                for d, _ in rb:
+                    if d == d and d != t and abs(d - t) < 1e-9:
+                        return True
+    # Tsukamoto inverses are singular at degree 0 and at the term's height (log 0, 1/0, sqrt of a cancellation)
+    if o[0] != "error":
+        for ov, od in zip(o[0], desc["outputs"]):
+            if "type" in od["defuzzifier"] and any(t["kind"] == "shape" for t in od["terms"]):
+                hts = {t["name"]: t["height"] for t in od["terms"] if t["kind"] == "shape"}
+                for name, d, _ in ov["fuzzy"]:
+                    if d == d and (abs(d) < 1e-9 or abs(d - hts.get(name, 1.0)) < 1e-9 or abs(d - 1.0) < 1e-9):
+                        return True
     for up in (True, False):
         o2 = run_impl(desc, [perturbed(row, up)])[0]
         if not obs_close(o, o2):
+            return True
+    return False
+
+
+def model_tiny(m):
+    """a degree of the exact model is positive but below 1e-12: float evaluation may legitimately absorb it (1 - 1)"""
+    if m == "error":
+        return False
+    (mfz, mrules, _raw), _v, _p = m
+    vals = [a[1] for l in mfz if l != "()" for a in l] + [r[0] for b in mrules if b != "()" for r in b]
+    for v in vals:
+        x = C.parse_x(v)
+        if not isinstance(x, str) and 0 < abs(x) < 1e-12:
             return True
     return False
 
@@ -375,7 +405,7 @@ def correspond(ctx):
                             "outputs": [ov["value"] for ov in o[0]] if o[0] != "error" else o[:2]} if nt and len(st.samples) < 5 else None)
             st.validated += 1
             bad = compare_row(desc, o, mr)
-            if bad and is_fragile(desc, rows[ri], o):
+            if bad and (model_tiny(mr) or is_fragile(desc, rows[ri], o)):
                 st.skipped_fragile += 1
                 break          # later rows depend on the carried state of this one
             if bad:
